@@ -14,6 +14,10 @@ CLAIMED = {
    "Writer-side structural conditions of the round trip, decided on every run: the per-key step of the configuration diff is extracted from the SSA as a complete decision table over (key present, value equal, model entry is file, result entry is file) and compared with the table required for a reader of the output to end up with exactly the result's file configuration (deletion on file->absent and file->internal, assignment on new/changed/internal->file, never an assignment for internal keys, model re-established); the diff trigger covers every kind of difference; a step that removes a key revisits its slot; measurements are printed as one (value,unit) family, the written pair exactly when one was recorded; floats use shortest round-trip verbs; unit metadata lines carry the unit as written.",
    "Does not decide that parsing arbitrary text and printing it is the identity, the float parser (C03), blank-line placement, or the equal-counts arithmetic argument the trigger relies on. Trusted: go/types, go/ssa, the table in DESIGN Appendix A1.",
    "decision-table extraction by abstract interpretation of SSA over a finite predicate domain + format/verb site rules"),
+ "C07": ("DESIGN.md §4 C07",
+   "Structural conditions decided on every run: no scanner recognises an escape by look-behind (with a stored positive control), a multi-step scan cursor is never compared with the end by ==, every call of the extractor constructor and of the match constructor is dominated by tests excluding the inputs they panic on (forward constant-set dataflow over the callers), the parser returns a nil node only with the error recorder's tokenizer, the quoting trigger covers the tokenizer's special characters and the operator sets equal the documented ones, order sentinels agree between parser and compiler and unknown orders return an error, space classification is applied to decoded runes, and misplaced .config/.unit are answered with an error.",
+   "Does not decide totality of parsing on arbitrary text, error offsets, or the regexp delimiter scanner's corner cases. Trusted: go/types, go/ssa, the documented grammar transcribed in the checker.",
+   "SSA site rules + forward constant-set dataflow (guard-then-use) + table agreement"),
 }
 
 NOT_YET = "check not built yet in this round (planned in DESIGN.md); not claimed until its rules run clean on the unchanged tree"
